@@ -123,3 +123,18 @@ func VerifDeadletterPID(sys ActorSystem) *PID {
 func VerifIdleOf(pid *PID) bool {
 	return pid.schedState.Load() == dispatchIdle && pid.mailbox.IsEmpty() && pid.systemMailbox.IsEmpty()
 }
+
+// VerifSystemActorsIdle reports whether the guardians, the death watch and the
+// dead-letter actor of sys have nothing queued and are not processing.
+func VerifSystemActorsIdle(sys ActorSystem) bool {
+	x, ok := sys.(*actorSystem)
+	if !ok {
+		return false
+	}
+	for _, pid := range []*PID{x.getRootGuardian(), x.getUserGuardian(), x.getSystemGuardian(), x.getDeathWatch(), x.getDeadletter()} {
+		if pid != nil && !VerifIdleOf(pid) {
+			return false
+		}
+	}
+	return true
+}
